@@ -89,3 +89,27 @@ func (e *OEnt) UnmarshalJSON(b []byte) error {
 	*e = OEnt{j.F, fromJF(j.Args), float64(j.R)}
 	return nil
 }
+
+// HuntHit: the evaluation point may contain -Inf / NaN (the -Inf short cuts of LogAdd / LogSub)
+type huntHitJ struct {
+	Site    string `json:"site"`
+	Kind    int    `json:"kind"`
+	Order   int    `json:"order"`
+	Xs      []JF   `json:"xs"`
+	Par     JF     `json:"par"`
+	K       int    `json:"k"`
+	Failure string `json:"failure"`
+	Class   string `json:"class"`
+}
+
+func (h HuntHit) MarshalJSON() ([]byte, error) {
+	return json.Marshal(huntHitJ{h.Site, h.Kind, h.Order, toJF(h.Xs), JF(h.Par), h.K, h.Failure, h.Class})
+}
+func (h *HuntHit) UnmarshalJSON(b []byte) error {
+	var j huntHitJ
+	if err := json.Unmarshal(b, &j); err != nil {
+		return err
+	}
+	*h = HuntHit{j.Site, j.Kind, j.Order, fromJF(j.Xs), float64(j.Par), j.K, j.Failure, j.Class}
+	return nil
+}
